@@ -182,7 +182,8 @@ def run_de2_maps(rng, obs):
     box = K.gen_box(rng, dim, None, shape='finite') if rng.random() < 0.5 else None
     cons = K.gen_constraint(rng, dim, box) if rng.random() < 0.4 else None
     gens = rng.randint(3, 7)
-    obs.desc = {'solver': 'de2', 'dim': dim, 'NP': NP, 'strategy': strat, 'cost': spec, 'box': box, 'cons': cons, 'generations': gens}
+    evalmon = rng.random() < 0.5          # with an evaluation monitor DE2 counts through the monitor where it can, else from the map results
+    obs.desc = {'solver': 'de2', 'dim': dim, 'NP': NP, 'strategy': strat, 'cost': spec, 'box': box, 'cons': cons, 'generations': gens, 'evalmon': evalmon}
     import mystic.strategy as ST
     def cost(x):                    # plain module-level-free function: must work in forked children and threads
         return raw([float(v) for v in x])
@@ -194,6 +195,9 @@ def run_de2_maps(rng, obs):
         if cons: s.SetConstraints(K.make_constraint(cons))
         s.SetEvaluationLimits(10 ** 6, 10 ** 8); s.SetTermination(ChangeOverGeneration(-1.0, 10 ** 6))
         if mapname != 'default': s.SetMapper(getattr(zoo, mapname))
+        if evalmon:
+            from mystic.monitors import Monitor
+            s.SetEvaluationMonitor(Monitor())
         s.SetObjective(cost)
         out = []
         for _ in range(gens + 1):
@@ -211,7 +215,7 @@ def run_de2_maps(rng, obs):
         # the counter only among the explicitly supplied maps
         def strip(tr, drop):
             return [{k: v for k, v in st.items() if k not in drop} for st in tr]
-        drop = ('evals',) if name == 'default' else ()
+        drop = ()       # (the costs of the zoo are finite, so every way DE2 has of counting must give the number of real evaluations)
         first = next((i for i, (a, b) in enumerate(zip(strip(got, drop), strip(base, drop))) if a != b), None)
         obs.check(first is None, 'map:DE2 trajectory is independent of the order/parallelism of the supplied map', map=name, first_differing_generation=first,
                   strategy=strat, field=None if first is None else next((k for k in got[first] if got[first][k] != base[first][k]), None))
